@@ -14,6 +14,13 @@ def c06(A):
         ins = [e for e in evs if e["k"] == "in"]
         outs = [e for e in evs if e["k"] == "pkt" and e["pkt"] is not None
                 and e["pkt"]["t"] in ("PUBACK", "PUBREC", "PUBCOMP")]
+        for e in evs:
+            if e["k"] == "pkt" and e["pkt"] is not None and e["pkt"]["t"] == "CONNECT" and e["pkt"].get("clean"):
+                # a broker that receives a clean-session CONNECT discards its half-finished exchanges
+                # (whether or not its CONNACK makes it back).  What the client does with a
+                # half-received message is left open (0 or 1 late delivery).
+                for st in exch[e["a"]].values():
+                    st["orphan"] = True
         cbs = [e for e in evs if e["k"] == "cb" and e["name"] == "onPublish"]
         excs = [e for e in evs if e["k"] == "exc"]
         prompts = {"PUBACK": [], "PUBREC": [], "PUBCOMP": []}
@@ -32,11 +39,6 @@ def c06(A):
             if c.clean and c.i_connack_ok == e["i"]:
                 pass
             for p in frames:
-                if p["t"] == "CONNACK" and p.get("rc") == 0 and c.clean and e["i"] == c.i_connack_ok:
-                    # clean session: the broker's half-finished exchanges are gone.  What the client
-                    # does with a half-received message is left open (0 or 1 late delivery).
-                    for st in exch[c.a].values():
-                        st["orphan"] = True
                 if not (up and subcap):
                     # not entitled to anything; also feeds the unprompted check (nothing prompted)
                     continue
